@@ -8,8 +8,9 @@ For every function F of GUARD_FUNCTIONS (Lean prefix `<Id>`):
   def <Id>_guard_count : Nat
   def <Id>_guard<k> (inputs… : Int) : Bool -- k-th `throw` in source order: the conjunction of the conditions under which
                                            --   control reaches it from the start of its scope (see below)
-  def <Id>_refuses (inputs… : Int) : Bool  -- guard0 || guard1 || …   (the only definition lemmas should mention: it does
-                                           --   not change when guards are split, merged or reordered)
+  def <Id>_refuses (inputs… : Int) : Bool  -- the disjunction of the guards' conditions (spelled out, not `guard0 || …`): the only
+                                           --   definition lemmas should mention — its meaning does not change when guards are
+                                           --   split, merged or reordered
 
 RULES OF THE FRAGMENT
 * A *guard* is a `throw` expression statement (or a call of a function listed in ALWAYS_THROW) lexically inside F or inside
@@ -609,7 +610,8 @@ def generate(repo):
             for i, (c, line) in enumerate(guards):
                 lines.append(f'/-- `{g["fn"]}` ({g["tu"]}), throw no. {i} in source order: it is reached (within its scope) when … -/')
                 lines.append(f'def {g["id"]}_guard{i} ({sig} : Int) : Bool :=\n  decide ({c})')
-            dis = ' || '.join(f'{g["id"]}_guard{i} {sig}' for i in range(len(guards))) or 'false'
+            # the conditions are repeated (not `guard<k> …`), so that a proof can unfold `_refuses` without naming the guards
+            dis = ' ||\n  '.join(f'decide ({c})' for c, _ in guards) or 'false'
             unused = [n for n, _ in g['inputs'] if n not in tr.used]
             lines.append(f'/-- `{g["fn"]}` refuses (one of its {len(guards)} throw statements is reached within its scope)'
                          + (f'; inputs no guard reads: {", ".join(unused)}' if unused else '') + ' -/')
